@@ -224,6 +224,22 @@ func cmdStruct(args []string) {
 					fmt.Fprintf(&src, "\ntype XM%d struct{ Tags []int }\ntype XS%d struct{ Meta *XM%d }\ntype XT%d struct{ Tags []int }\n\n// goverter:converter\n// goverter:useZeroValueOnPointerInconsistency\n%stype C%d interface {\n\t// goverter:map Meta.Tags Tags\n\tConv(source XS%d) XT%d\n}\n", i, i, i, i, head(i), i, i, i)
 					drvLines[i]["ins"] = []any{stv(ptrv(stv(map[string]any{"k": "s", "a": "i", "es": []any{lit(7)}}))), stv(nilv())}
 				}
+			case "reuse-ptrval":
+				fmt.Fprintf(&src, "\ntype XS%d struct {\n\tA int\n\tB int\n}\ntype XT%d struct {\n\tA int\n\tC int\n}\n\n// goverter:converter\n// goverter:ignoreMissing\n%stype C%d interface {\n\t// goverter:useZeroValueOnPointerInconsistency\n", i, i, head(i), i)
+				switch q["setting"] {
+				case "map":
+					src.WriteString("\t// goverter:map B C\n")
+				case "ignore":
+					src.WriteString("\t// goverter:ignore C\n")
+				}
+				fmt.Fprintf(&src, "\tConv(source *XS%d) XT%d\n", i, i)
+				switch q["second"] {
+				case "slice":
+					fmt.Fprintf(&src, "\tAAll(source []XS%d) []XT%d\n", i, i)
+				case "value":
+					fmt.Fprintf(&src, "\tAV(source XS%d) XT%d\n", i, i)
+				}
+				src.WriteString("}\n")
 			case "reuse":
 				fmt.Fprintf(&src, "\ntype XI%d struct{ C int }\ntype XS%d struct {\n\tA int\n\tB int\n\tInner XI%d\n}\ntype XT%d struct {\n\tA int\n\tC int\n}\n\n// goverter:converter\n// goverter:ignoreMissing\n%stype C%d interface {\n", i, i, i, i, head(i), i)
 				switch q["setting"] {
